@@ -31,6 +31,10 @@ PT = b"c17-plaintext"
 
 
 def sid_n(n: int) -> str:
+    if n == 0:
+        return "S-1-1-0"  # Everyone: the SID the target SD's second ACE names anyway
+    if n == -1:
+        return "S-1-5-18"
     return "S-1-5-" + "-".join(str(21 + 1000 * i) for i in range(n))
 
 
@@ -52,9 +56,9 @@ class Cfg(t.NamedTuple):
 # every way in which a conforming server, the caller's arguments or the key configuration may depart from the base configuration
 DEVIATIONS: t.Dict[str, t.List[t.Any]] = {
     "op": ["protect"], "hash": ["SHA1", "SHA384", "SHA512"], "kind": ["DH", "ECDH_P256", "ECDH_P384"], "pos": [(0, 0), (31, 31), (0, 31), (31, 0), (15, 31)],
-    "now": [(0, 0), (31, 31), (0, 31), (3, 31)], "nsub": [1, 15], "namelen": [0, 1, 8], "named": [False], "sec": ["ntlm"], "sig": [28, 76],
+    "now": [(0, 0), (31, 31), (0, 31), (3, 31)], "nsub": [1, 15, 0, -1], "namelen": [0, 1, 8], "named": [False], "sec": ["ntlm"], "sig": [28, 76],
     "dc.l2_at_31": [False], "dc.cover": ["later", "l1end"], "dc.reply_alloc_hint": ["unpadded", "zero", "16", "max"], "dc.reply_pad_extra": [1], "dc.reply_pad_fill": [0xE7],
-    "dc.reply_reserved": [0xFF], "dc.header_sign": [False], "dc.isd_port": [1, 65535, 5000, 99, 135 * 0 + 1025], "dc.server_legs": [2],
+    "dc.reply_reserved": [0xFF], "dc.header_sign": [False], "dc.isd_port": [1, 65535, 5000, 99, 135 * 0 + 1025], "dc.server_legs": [2, 3, 4],
     "dc.env_flags": ["alt"],  # the other spelling of the envelope flags: 0 instead of 2 (seed keys), 3 instead of 1 (public key)
     "dc.name_style": ["unicode"],  # domain / forest names with non-ASCII and non-BMP characters
     "dc.forest": ["shorter", "longer"],  # a child domain / second tree: the forest name differs from the domain name (also in length)
@@ -101,7 +105,14 @@ def run_cfg(seed: int, c: Cfg):
     ent = seams.Entropy(b"C17")
     import contextlib
 
-    cm = secctx.scripted_client(lambda u, p, **k: secctx.ScriptedContext([b"C%d" % (i + 1) for i in range(legs)], c.sig)) if c.sec == "scripted" else contextlib.nullcontext()
+    def _client_ctx(u, p, **k):
+        # a mechanism validates what it is fed: leg i must be the DC's token i, in order
+        cx = secctx.ScriptedContext([b"C%d" % (i + 1) for i in range(legs)], c.sig)
+        cx.expect_in = [None] + list(dc.server_tokens[:legs])
+        cx.strict_completion = True
+        return cx
+
+    cm = secctx.scripted_client(_client_ctx) if c.sec == "scripted" else contextlib.nullcontext()
     with transport.network(dc) as hub, cm, seams.entropy(ent) if c.sec == "scripted" else contextlib.nullcontext():
         try:
             if c.op == "unprotect":
